@@ -762,6 +762,11 @@ class DHEat:
             family = socket.AF_INET if ip_version_preference[0] == 4 else socket.AF_INET6
 
         r = socket.getaddrinfo(host, 0, family, socket.SOCK_STREAM)
+
+        # If the user has a preference for using IPv4 over IPv6 (or vice-versa), put the preferred address type first (as SSH_Socket._resolve() does).
+        if len(ip_version_preference) == 2:
+            r = sorted(r, key=lambda x: x[0], reverse=(ip_version_preference[0] == 6))  # pylint: disable=superfluous-parens
+
         for address_family, socktype, _, _, addr in r:
             if socktype == socket.SOCK_STREAM:
                 return int(address_family), str(addr[0])
